@@ -60,7 +60,8 @@ func Read(r parser.ReadSeekSizer) (*Info, error) {
 
 	switch post.Version {
 	case 0x00010000:
-		info.Names = macRoman
+		// use a copy, so that the caller can change the names
+		info.Names = append([]string(nil), macRoman...)
 
 	case 0x00020000:
 		glyphNameIndex, err := p.ReadUint16Slice()
